@@ -44,7 +44,16 @@ func (eval Evaluator) EvaluateMany(ctIn *rlwe.Ciphertext, linearTransformations 
 
 	ctPreRot := map[int]*rlwe.Element[ringqp.Poly]{}
 
+	// The giant steps of MultiplyByDiagMatrixBSGS (GadgetProductLazy) use BuffDecompQP[0] as scratch:
+	// the hoisted decomposition of ctIn must be recomputed before it is used by a later transformation.
+	var decompClobbered bool
+
 	for i, lt := range linearTransformations {
+
+		if decompClobbered {
+			eval.DecomposeNTT(levelQ, levelP, levelP+1, ctIn.Value[1], ctIn.IsNTT, BuffDecompQP)
+			decompClobbered = false
+		}
 
 		if lt.N1 == 0 {
 			if err = eval.MultiplyByDiagMatrix(ctIn, lt, BuffDecompQP, opOut[i]); err != nil {
@@ -61,6 +70,8 @@ func (eval Evaluator) EvaluateMany(ctIn *rlwe.Ciphertext, linearTransformations 
 			if err = eval.MultiplyByDiagMatrixBSGS(ctIn, lt, ctPreRot, opOut[i]); err != nil {
 				return
 			}
+
+			decompClobbered = true
 		}
 	}
 
